@@ -93,3 +93,15 @@ mod playback {
     use super::*;
     include!("/verif/harness/playback/foyer-memory/inflight__verif_kani.rs");
 }
+
+verif_harness! { exp_piece_drop, 6, {
+    let r: Arc<crate::record::Record<E>> = Arc::new(crate::record::Record::new(crate::record::Data { key: 1, value: kani::any(), properties: HProps::default(), hash: 1, weight: 1 }));
+    let p = crate::pipe::Piece::new(r.clone());
+    let q = p.clone();
+    drop(p);
+    assert!(*q.value() == *r.value());
+    drop(q);
+    assert!(Arc::strong_count(&r) == 1);
+    kani::cover!(true, "end reached");
+    std::mem::forget(r);
+} }
